@@ -499,6 +499,152 @@ def level_uniform(facts, res, cls, R, floor=3):
     return n
 
 
+def operator_static_locals(facts, res, cls, R, min_fns=8):
+    """no function an operator of kernel `cls` can reach - through member calls, free functions and static helpers of utility classes,
+    resolved by name and arity inside the library - keeps a mutable static local: the executors run the operators of different kernel
+    copies at the same time, and a static local is the one thing the per-worker copies do not duplicate"""
+    ops = [m for m in facts.methods_of(cls) if m["name"] in ("P2M", "M2M", "M2L", "L2L", "L2P", "P2P", "P2PTsm", "P2PInner") and tbf.body(m) is not None and not m.get("inst")]
+    if not ops:
+        raise AnalysisBroken("%s: no operator found" % cls)
+    byname = {}
+    for g in facts.functions:
+        if not g.get("inst") and tbf.body(g) is not None:
+            byname.setdefault(g["name"], []).append(g)
+    seen = {}
+    todo = [(m, [m["name"]]) for m in ops]
+    while todo:
+        fn, path = todo.pop()
+        if id(fn) in seen or len(path) > 7:
+            continue
+        seen[id(fn)] = (fn, path)
+        for c in walk(tbf.body(fn)):
+            if c.get("k") in ("CallExpr", "CXXMemberCallExpr"):
+                nm = tbf.callee_name(c)
+                cands = [g for g in byname.get(nm, []) if len(g["params"]) == len(tbf.call_args(c))]
+                q = tbf.callee_qual(c) or ""
+                if len(cands) > 1 and "::" in q:
+                    scoped = [g for g in cands if g["qname"].endswith(q.split("<")[0].split("::")[-2] + "::" + nm)] if q.count("::") >= 1 else []
+                    cands = scoped or cands
+                for g in cands[:4]:
+                    todo.append((g, path + [g["qname"]]))
+    hits = 0
+    for fn, path in seen.values():
+        for x in walk(tbf.body(fn)):
+            if x.get("k") == "VarDecl" and x.get("staticlocal") and not x.get("tls") and not x.get("constexpr") and not x.get("t", "").lstrip().startswith("const") \
+                    and not re.search(r"\b(mutex|once_flag|shared_mutex|recursive_mutex|atomic_flag)\b", x.get("t", "")):
+                hits += 1
+                res.violation(R, tbf.rel(facts.path_of(fn)), fn["qname"], "static-local:%s" % x["name"], x["l"][1],
+                              "%s keeps the %sstatic local '%s' (%s) and is reached from %s::%s (%s): the executors run operators of different kernel copies concurrently, and all of them read and write this one object" % (
+                                  fn["qname"], "thread_local " if x.get("tls") else "", x["name"], x.get("t", "")[:50], cls, path[0], " -> ".join(path[1:]) or "directly"))
+    res.instance(R, "%s operator-reachable functions" % cls, "umbrella 'core'", "%d functions reached from %d operators; %d mutable static locals" % (len(seen), len(ops), hits))
+    if len(seen) < min_fns:
+        raise AnalysisBroken("%s: only %d functions reachable from the operators of %s" % (R, len(seen), cls))
+    return hits
+
+
+def no_process_state(facts, res, subdir, R, determined=None):
+    """a kernel is a function of the configuration it was built for.  A mutable static local (or a namespace-scope variable) in the
+    kernel's directory - constructors and table builders included, not only operator-reachable code - outlives the kernel and is shared
+    by every kernel of the process.  That is harmless exactly when what is kept does not depend on anything the kernels may differ in:
+    the rule collects the data members the function reads (configuration: box width, centre, height ...) and the key under which the
+    state is looked up / stored (subscript, find, at, count, emplace arguments, through const locals); every member read must be part
+    of the key.  State looked up under the tree height alone while the code that fills it reads the box width is the canonical defect:
+    a second kernel of the process built for another box silently gets the first one's tables.  Locks carry no data and are exempt."""
+    n = 0
+    hits = 0
+    for fn in facts.functions:
+        if fn.get("inst") or tbf.body(fn) is None:
+            continue
+        pth = tbf.rel(facts.path_of(fn))
+        if not pth.startswith(subdir):
+            continue
+        n += 1
+        body = tbf.body(fn)
+        statics = [x for x in walk(body) if x.get("k") == "VarDecl" and x.get("staticlocal") and not x.get("constexpr") and not x.get("t", "").lstrip().startswith("const")
+                   and not re.search(r"\b(mutex|once_flag|shared_mutex|recursive_mutex|atomic_flag)\b", x.get("t", ""))]
+        if not statics:
+            continue
+        cls = fn.get("cls")
+        fields = set()
+        seen = set()
+        todo = [cls] if cls else []
+        while todo:
+            c = todo.pop()
+            if c in seen or facts.cls(c) is None:
+                continue
+            seen.add(c)
+            fields |= {f["name"] for f in facts.cls(c).get("fields", [])}
+            todo += [re.sub(r"<.*", "", b).split("::")[-1].strip() for b in facts.cls(c).get("bases", [])]
+        decls = {v["did"]: v for v in walk(body) if v.get("k") == "VarDecl"}
+
+        def names(node, depth=0):
+            out = set()
+            for y in walk(node):
+                if y.get("k") in ("MemberExpr", "CXXDependentScopeMemberExpr") and y.get("name") in fields and (not kids(y) or strip(kids(y)[0]).get("k") == "CXXThisExpr"):
+                    out.add(y["name"])
+                if y.get("k") == "DeclRefExpr" and y.get("did") in decls and depth < 4 and kids(decls[y["did"]]) and not decls[y["did"]].get("staticlocal"):
+                    out |= names(kids(decls[y["did"]])[0], depth + 1)
+            return out
+        for x in statics:
+            hits += 1
+            # members the function reads, other than as the destination of an assignment
+            read = set()
+            for y in walk(body):
+                if y.get("k") in ("MemberExpr", "CXXDependentScopeMemberExpr") and y.get("name") in fields and (not kids(y) or strip(kids(y)[0]).get("k") == "CXXThisExpr"):
+                    read.add(y["name"])
+            written = set()
+            for y in walk(body):
+                if y.get("k") in ("BinaryOperator", "CXXOperatorCallExpr") and y.get("op") == "=" and kids(y):
+                    l0 = strip(kids(y)[0] if y.get("k") == "BinaryOperator" else kids(y)[1])
+                    if l0.get("k") in ("MemberExpr", "CXXDependentScopeMemberExpr") and l0.get("name") in fields:
+                        written.add(l0["name"])
+                if y.get("k") in ("CXXMemberCallExpr", "CallExpr") and tbf.callee_name(y) in ("reset",) and tbf.call_base(y) is not None:
+                    b0 = strip(tbf.call_base(y))
+                    if b0.get("k") in ("MemberExpr", "CXXDependentScopeMemberExpr") and b0.get("name") in fields:
+                        written.add(b0["name"])
+            # a member that is only filled here and never used as an input (the table pointers themselves) is not configuration
+            inputs = set()
+            for y in walk(body):
+                if y.get("k") in ("MemberExpr", "CXXDependentScopeMemberExpr") and y.get("name") in read:
+                    par = None
+                    # crude use classification: a member that is subscripted or reset here is storage, everything else is an input
+                    inputs.add(y["name"])
+            storage = set()
+            for y in walk(body):
+                if y.get("k") in ("ArraySubscriptExpr", "CXXOperatorCallExpr") and kids(y):
+                    b0 = strip(kids(y)[0] if y.get("k") == "ArraySubscriptExpr" else kids(y)[1] if len(kids(y)) > 1 else kids(y)[0])
+                    while b0.get("k") in ("ArraySubscriptExpr",) and kids(b0):
+                        b0 = strip(kids(b0)[0])
+                    if b0.get("k") in ("MemberExpr", "CXXDependentScopeMemberExpr") and b0.get("name") in fields:
+                        storage.add(b0["name"])
+            config = inputs - storage - written
+            key = set()
+            for y in walk(body):
+                if y.get("k") in ("ArraySubscriptExpr", "CXXOperatorCallExpr", "CXXMemberCallExpr", "CallExpr"):
+                    ks_ = kids(y)
+                    base = None
+                    args = []
+                    if y.get("k") == "ArraySubscriptExpr":
+                        base, args = strip(ks_[0]), ks_[1:]
+                    elif y.get("k") == "CXXOperatorCallExpr" and y.get("op") == "[]" and len(ks_) >= 3:
+                        base, args = strip(ks_[1]), ks_[2:]
+                    elif y.get("k") in ("CXXMemberCallExpr", "CallExpr") and tbf.callee_name(y) in ("find", "at", "count", "emplace", "insert", "try_emplace", "contains") and tbf.call_base(y) is not None:
+                        base, args = strip(tbf.call_base(y)), tbf.call_args(y)[:1]
+                    if base is not None and base.get("k") == "DeclRefExpr" and base.get("did") == x.get("did"):
+                        for a in args:
+                            key |= names(a)
+            missing = sorted(m_ for m_ in config - key if not (determined is not None and key and determined(key, m_)))
+            res.instance(R, "%s static '%s'" % (fn["qname"], x["name"]), facts.loc(x), "looked up under %s; the function reads the configuration members %s" % (sorted(key) or "nothing", sorted(config) or "none"))
+            if missing:
+                res.violation(R, pth, fn["qname"], "static-local:%s" % x["name"], x["l"][1],
+                              "%s keeps the static local '%s' (%s), looked up under %s, while the code that fills it reads the kernel's %s: it outlives the kernel and is shared by every kernel of the process, so a kernel built later with the same %s but another %s gets the first kernel's content" % (
+                                  fn["qname"], x["name"], x.get("t", "")[:50], sorted(key) or "no key at all", missing, "/".join(sorted(key)) or "(nothing)", "/".join(missing)))
+    res.instance(R, "static locals under " + subdir, subdir, "%d functions examined, %d mutable static locals" % (n, hits))
+    if n < 20:
+        raise AnalysisBroken("%s: only %d functions found under %s" % (R, n, subdir))
+    return len([v for v in res.violations if v["rule"] == R and v["key"].startswith("static-local:")])
+
+
 def run(res, tier):
     facts = tbf.scan("core")
     res.units.append("umbrella TU 'core': FUnifKernel, FAbstractUnifKernel, FUnifM2LHandler, FFftwCore / FFftw, FUnifInterpolator, FUnifTensor / FInterpTensor")
@@ -510,6 +656,8 @@ def run(res, tier):
     res.assumptions.append("the interpolation error bound and the interpolation formulas themselves are NOT decided; FFTW is assumed to read a plan's input buffer and define its output buffer")
     res.trusted = ["clang 14 + tbfscan", "kstate ownership graph / member events", "symx", "operator role table (coherence.ROLES)"]
     res.checker_cmds.append("./check C05")
+    shared = no_process_state(facts, res, "src/kernels/unifkernel/", "C05.1.copies-isolated")
+    operator_static_locals(facts, res, K, "C05.1.copies-isolated")
     ks = kstate.KState(facts)
     reach = ks.reachable(K, kstate.OPERATORS)
     if len(reach) < 18:
